@@ -88,17 +88,17 @@ class DescriptionCache:
 
             evt = self._cache_dict[location] = asyncio.Event()
             try:
+                description: DescriptionType = None
                 try:
                     description_xml = await self.async_get_description_xml(location)
                 except UpnpResponseError:
-                    self._cache_dict[location] = None
+                    pass
                 else:
                     if description_xml:
-                        self._cache_dict[location] = _description_xml_to_dict(
-                            description_xml
-                        )
-                    else:
-                        self._cache_dict[location] = None
+                        description = _description_xml_to_dict(description_xml)
+                if self._cache_dict.get(location) is evt:
+                    # Not uncached while downloading, the result is current.
+                    self._cache_dict[location] = description
             finally:
                 if self._cache_dict.get(location) is evt:
                     # Cancelled or failed, do not leave the marker behind.
